@@ -69,7 +69,7 @@ Print Assumptions C18_subscriber_bounded_any_limits.
      Trailing:    a timed reporter holds exactly those lines (published by C18_incident_trailing below).
    FULL STRENGTH; rests on the translated fact serialize_total = true (three-stage fallback in flogfile). *)
 Theorem C18_one_bad_event_harmless : forall c sz b i e,
-  c_qual c = true -> incident_level <= e_lvl e -> i_rep i = None -> i_zombie i = false ->
+  c_fault c = NoFault -> c_qual c = true -> incident_level <= e_lvl e -> i_rep i = None -> i_zombie i = false ->
   0 <= limit_of sz (e_fac e) (e_lvl e) ->
   let a := add_event c sz b i e in
   x_raised a = false /\
@@ -117,7 +117,7 @@ Print Assumptions C18_nothing_abandoned.
 
 (* independent of the form of serialize_to_json_utf8: valid for every history whose buffered events can be encoded *)
 Theorem C18_incident_recorded_when_encodable : forall c sz b i e,
-  c_qual c = true -> incident_level <= e_lvl e -> i_rep i = None -> i_zombie i = false ->
+  c_fault c = NoFault -> c_qual c = true -> incident_level <= e_lvl e -> i_rep i = None -> i_zombie i = false ->
   0 <= limit_of sz (e_fac e) (e_lvl e) ->
   let a := add_event c sz b i e in
   enc e = true -> forallb enc (all_buffered (x_bufs a)) = true ->
